@@ -88,10 +88,15 @@ HARNESSES['gs3_request_packet_to_bytes'] = {'module': 'verif_req_gs3.rs', 'targe
     'what': 'header BE, kind, session id BE, optional challenge BE (whatever its value, negative included), optional payload (complete: loop-free, all field values)'}
 HARNESSES['mc_as_string_multibyte'] = {'module': 'verif_core.rs', 'target': 'games::minecraft::types::as_string',
     'what': 'length prefix of a Minecraft string is the UTF-8 byte length (one 2-byte character in the sample)', 'bounded': True, 'bound': 'one sample string'}
+MODULES['verif_java.rs'] = {'owner': 'crates/lib/src/games/minecraft/protocol/java.rs', 'name': 'verif_java'}
+HARNESSES['java_send_frames_with_varint_length'] = {'module': 'verif_java.rs', 'target': 'games::minecraft::protocol::java::Java::send', 'timeout': 900,
+    'what': 'every packet written by the Java client is VarInt(length) followed by the unchanged payload', 'bounded': True, 'bound': 'payload lengths 0, 1, 127, 128, 213, 300'}
 for _n in ('firstreq_selftest_wrong_byte', 'firstreq_selftest_wrong_port'):
     HARNESSES[_n] = {'module': 'verif_firstreq.rs', 'target': 'vacuity guard', 'what': 'a first-request harness with a deliberately wrong expectation is refuted (kani::should_panic)'}
 SETS['C09'] = [h for h in FIRSTREQ if h != 'firstreq_minecraft_java'] + ['firstreq_selftest_wrong_byte', 'firstreq_selftest_wrong_port', 'master_construct_payload',
                'valve_packet_to_bytes', 'valve_default_payload', 'gs3_request_packet_to_bytes', 'mc_as_string_multibyte']
+# java_send_frames_with_varint_length: `[Vec<u8>; 2].concat()` inside Java::send makes Kani report 'pointer to unallocated memory'
+# (unsupported construct; the same limit stops firstreq_minecraft_java): harness kept in kani/verif_java.rs, not counted
 MODULES['verif_quake.rs'] = {'owner': 'crates/lib/src/protocols/quake/client.rs', 'name': 'verif_quake'}
 HARNESSES['quake_remove_wrapping_quotes_small'] = {'module': 'verif_quake.rs', 'target': 'protocols::quake::client::remove_wrapping_quotes', 'timeout': 900, 'replayable': True,
     'what': 'wrapping quotes are removed iff the token has at least two characters and starts and ends with a quote; nothing else is touched', 'bounded': True, 'bound': 'all strings of up to 3 characters over the alphabet {quote, a}'}
@@ -103,6 +108,8 @@ BATCH = {"C14": 16}
 # of these is replayed natively on the real code with `cargo kani playback`
 for _n in SETS['C17'] + ['settings_new_rejects_exactly_zero_durations', 'settings_defaults_are_valid', 'retry_extreme_counts',
                           'master_construct_payload', 'master_filter_bool_kinds', 'master_filter_text_kinds', 'valve_packet_to_bytes',
-                          'valve_default_payload', 'gs3_request_packet_to_bytes', 'mc_as_string_multibyte']:
+                          'valve_default_payload', 'gs3_request_packet_to_bytes', 'mc_as_string_multibyte']
+# java_send_frames_with_varint_length: `[Vec<u8>; 2].concat()` inside Java::send makes Kani report 'pointer to unallocated memory'
+# (unsupported construct; the same limit stops firstreq_minecraft_java): harness kept in kani/verif_java.rs, not counted:
     if _n in HARNESSES:
         HARNESSES[_n]['replayable'] = True
